@@ -45,6 +45,8 @@ def to_impl(entries, P):
                 out.append(cls(v))
             else:
                 out.append(cls(v, _mask_of(e)))
+        elif k == 'bad' and e['what'] in HIST_FLOATS:
+            out.append(_hist_float(P, e['what']))
         elif k == 'bad':
             w = e['what']
             out.append({'float': 1.5, 'str': 'a', 'farr': np.array([0.5, 1.0]),
@@ -58,6 +60,31 @@ def to_impl(entries, P):
     if len(out) == 1 and not e.get('tuple1'):
         return out[0]
     return tuple(out)
+
+
+# floating-point index objects that came out of an INTEGER index object by arithmetic with a Python number, after the
+# integer object was asked for its data kind and used as an index once: they must be rejected like any float
+# (seeded change C09-H: a cached data kind carried along by the number fast paths made them pass as integers)
+HIST_FLOATS = ['fobj_div', 'fobj_mul', 'fobj_add', 'fobj_sub', 'fvec_mul', 'fvec_div', 'fobj0_add']
+
+
+def _hist_float(P, what):
+    if what.startswith('fvec'):
+        i = P.Pair(np.array([[0, 1], [1, 0]]))
+        probe = P.Scalar(np.arange(6).reshape(2, 3))
+    elif what.startswith('fobj0'):
+        i = P.Scalar(1)
+        probe = P.Scalar(np.arange(4))
+    else:
+        i = P.Scalar(np.array([0, 1]))
+        probe = P.Scalar(np.arange(4))
+    i.is_int(), i.is_float(), i.dtype(), i.antimask, i.wod
+    try:
+        probe[i]
+    except Exception:       # noqa
+        pass
+    op = what.split('_')[1]
+    return {'div': lambda: i / 2, 'mul': lambda: i * 0.5, 'add': lambda: i + 0.5, 'sub': lambda: i - 0.5}[op]()
 
 
 def index_snapshot(idx):
@@ -290,7 +317,7 @@ def gen_bad_index(rng, shape):
     how = rng.choice(['bad', 'bad', 'two_ell', 'too_many', 'step0', 'fslice', 'barr_len', 'nobroadcast'])
     rank = len(shape)
     if how == 'bad':
-        e = {'k': 'bad', 'what': rng.choice(['float', 'str', 'farr', 'fobj', 'fobjarr'])}
+        e = {'k': 'bad', 'what': rng.choice(['float', 'str', 'farr', 'fobj', 'fobjarr'] + HIST_FLOATS)}
         ents.insert(rng.randrange(len(ents) + 1), e)
     elif how == 'two_ell':
         ents = [e for e in ents if e['k'] != 'ell']
